@@ -1,6 +1,7 @@
 package main
 
 import (
+	"net"
 	"sync/atomic"
 	"fmt"
 	"sort"
@@ -141,7 +142,7 @@ func (p *pipeline) expected(w *mWorld) map[triple]bool {
 			for _, o := range oddRegs {
 				if o.name == in.Name {
 					for _, src := range o.want {
-						dst := fmt.Sprintf("http://%s:%d/", in.Addr, in.Port)
+						dst := "http://" + net.JoinHostPort(in.Addr, strconv.Itoa(in.Port)) + "/"
 						if i := strings.Index(src, "="); i >= 0 { // "<prefix>=<redirect target>"
 							src, dst = src[:i], src[i+1:]
 						}
@@ -164,7 +165,7 @@ func (p *pipeline) expected(w *mWorld) map[triple]bool {
 			if addr == "" {
 				addr = w.nodes[in.Node].Addr
 			}
-			hostport := fmt.Sprintf("%s:%d", addr, in.Port)
+			hostport := net.JoinHostPort(addr, strconv.Itoa(in.Port))
 			dst := "http://" + hostport + "/"
 			bad := false
 			weight := ""
@@ -228,7 +229,7 @@ func (p *pipeline) expected(w *mWorld) map[triple]bool {
 						onRoute = onRoute || tg == "urlprefix-"+f[3]
 					}
 					if tagged && onRoute {
-						hit = append(hit, triple{in.Name, f[3], fmt.Sprintf("http://%s:%d/", in.Addr, in.Port), ""})
+						hit = append(hit, triple{in.Name, f[3], "http://" + net.JoinHostPort(in.Addr, strconv.Itoa(in.Port)) + "/", ""})
 					}
 				}
 				for _, tr := range hit {
@@ -396,7 +397,7 @@ func genInstance(t *rapid.T, w *mWorld) *fakeconsul.Instance {
 	name := rapid.SampledFrom([]string{"web", "api", "db"}).Draw(t, "name")
 	id := fmt.Sprintf("%s-%d", name, rapid.IntRange(1, 2).Draw(t, "idn"))
 	in := &fakeconsul.Instance{Node: node, NodeAddr: map[string]string{"node1": "10.0.1.1", "node2": "10.0.2.2"}[node], ID: id, Name: name,
-		Addr: rapid.SampledFrom([]string{"", "10.5.5.5", "10.6.6.6"}).Draw(t, "addr"), Port: rapid.IntRange(1000, 1005).Draw(t, "port")}
+		Addr: rapid.SampledFrom([]string{"", "10.5.5.5", "10.6.6.6", "2001:db8::17"}).Draw(t, "addr"), Port: rapid.IntRange(1000, 1005).Draw(t, "port")}
 	n := rapid.IntRange(0, 3).Draw(t, "ntags")
 	seen := map[string]bool{}
 	for i := 0; i < n; i++ {
@@ -459,6 +460,15 @@ func TestC16Pipeline(t *testing.T) {
 	})
 }
 
+// ... and of C02's: no registration, however odd, keeps the table from following the registry
+// (or takes the process down).
+func TestC02Pipeline(t *testing.T) {
+	p := startPipeline(t)
+	hx.Check(t, hx.Scale(30, 400), func(t *rapid.T) {
+		runHistory(t, p, true)
+	})
+}
+
 func TestC14Pipeline(t *testing.T) {
 	p := startPipeline(t)
 	hx.Check(t, hx.Scale(40, 500), func(t *rapid.T) {
@@ -484,6 +494,11 @@ var oddRegs = []struct {
 	{"oddbs", []string{"urlprefix-/oddbs", `back\slash`, "ünï"}, []string{"/oddbs"}},
 	{"oddmixed", []string{"urlprefix-/ok1", "urlprefix-/bad weight=x", "urlprefix-/ok2"}, []string{"/ok1", "/ok2"}},
 	{"oddrel", []string{"urlprefix-/old redirect=301,/new", "urlprefix-/keep"}, []string{"/old=/new", "/keep"}},
+	// redirect options without their second half: the option is ignored, the route is an ordinary one
+	{"oddredir2", []string{"urlprefix-/oddr redirect=301"}, []string{"/oddr"}},
+	{"oddredir3", []string{"urlprefix-/oddr redirect="}, []string{"/oddr"}},
+	{"oddredir4", []string{"urlprefix-/oddr redirect=https://example.com/"}, []string{"/oddr"}},
+	{"oddredir5", []string{"urlprefix-/oddr redirect=301,https://a.example/,x"}, []string{"/oddr"}},
 }
 
 func runHistory(t *rapid.T, p *pipeline, withOdd bool) {
@@ -642,7 +657,7 @@ func runHistory(t *rapid.T, p *pipeline, withOdd bool) {
 			if rapid.Bool().Draw(t, "move-port") || in.Addr == "" {
 				in.Port += 100
 			} else {
-				in.Addr = map[string]string{"10.5.5.5": "10.6.6.6", "10.6.6.6": "10.7.7.7"}[in.Addr]
+				in.Addr = map[string]string{"10.5.5.5": "10.6.6.6", "10.6.6.6": "10.7.7.7", "2001:db8::17": "2001:db8::18"}[in.Addr]
 				if in.Addr == "" {
 					in.Addr = "10.5.5.5"
 				}
@@ -721,7 +736,39 @@ func runHistory(t *rapid.T, p *pipeline, withOdd bool) {
 			} else {
 				var lines []string
 				for j, m := 0, rapid.IntRange(1, 2).Draw(t, "nlines"); j < m; j++ {
-					switch rapid.IntRange(0, 3).Draw(t, "kvline") {
+					switch rapid.IntRange(0, 4).Draw(t, "kvline") {
+					case 4:
+						// the operator pins a service to one of its instances: everything of the service is
+						// deleted and the line of that instance - as the registry writes it - is added again
+						var pins [][2]string
+						for _, k := range keys {
+							in := w.inst[k]
+							if !p.healthy(w, in) {
+								continue
+							}
+							addr := in.Addr
+							if addr == "" {
+								addr = w.nodes[in.Node].Addr
+							}
+							var svctags []string
+							for _, x := range in.Tags {
+								if !strings.HasPrefix(x, "urlprefix-") {
+									svctags = append(svctags, x)
+								}
+							}
+							for _, tg := range in.Tags {
+								if tg == "urlprefix-/a" || tg == "urlprefix-/b" {
+									pins = append(pins, [2]string{in.Name, fmt.Sprintf("route add %s %s http://%s/ tags %q", in.Name, strings.TrimPrefix(tg, "urlprefix-"), net.JoinHostPort(addr, strconv.Itoa(in.Port)), strings.Join(svctags, ","))})
+								}
+							}
+						}
+						if len(pins) == 0 {
+							lines = append(lines, "# nothing to pin")
+							break
+						}
+						pin := rapid.SampledFrom(pins).Draw(t, "pinned")
+						lines = append(lines, "route del "+pin[0], pin[1])
+						hx.Class("history-with-operator-pinning-an-instance")
 					case 3:
 						// the operator moves an instance to another scheme on the same address: the https
 						// target is added next to, or (with the del) instead of, the announced http one
@@ -740,7 +787,7 @@ func runHistory(t *rapid.T, p *pipeline, withOdd bool) {
 											svctags = append(svctags, x)
 										}
 									}
-									cands = append(cands, [4]string{in.Name, strings.TrimPrefix(tg, "urlprefix-"), fmt.Sprintf("%s:%d", addr, in.Port), strings.Join(svctags, ",")})
+									cands = append(cands, [4]string{in.Name, strings.TrimPrefix(tg, "urlprefix-"), net.JoinHostPort(addr, strconv.Itoa(in.Port)), strings.Join(svctags, ",")})
 								}
 							}
 						}
